@@ -339,6 +339,8 @@ func (e *Exec) Run() {
 			e.bootstrap(st)
 		case "hquery":
 			e.hostileQuery(st.HQ)
+		case "simulate":
+			e.simulateOnly(st)
 		case "upgrade":
 			e.nextPlan = &upgradetypes.Plan{Name: "v2.2.1", Height: int64(len(e.Blocks)) + 2, Info: "panasim"}
 		}
@@ -427,6 +429,7 @@ func (e *Exec) produceBlock(st *Step) {
 			prop = "C19"
 		}
 		e.viol(prop, "halt.beginblock", "", "BeginBlock(%d) panicked: %s [%s]", h, halt.Panic, halt.Stack)
+		e.stop = true
 		return
 	}
 	r0.inBlock = true
@@ -554,13 +557,14 @@ func (e *Exec) endAndCommitR0(blk *Block, rec *BlockRec, isUpgradeBlock bool) {
 	var endRes abci.ResponseEndBlock
 	_, halt := r0.guard("EndBlock", func() { endRes = r0.App.EndBlock(abci.RequestEndBlock{Height: h}) })
 	if halt != nil {
+		// both C07 ("processing a block never halts because of the burn address's state") and C17 ("end-of-block
+		// processing can never be halted") name this; report it under whichever of the two is being checked
 		prop := "C17"
-		if strings.Contains(halt.Stack, "x/burn") || strings.Contains(halt.Panic, "burn") {
-			prop = "C07"
-		} else if strings.Contains(halt.Panic, "invariant") {
+		if e.Prop == "C07" && (strings.Contains(halt.Stack, "x/burn") || strings.Contains(halt.Panic, "burn") || strings.Contains(halt.Panic, "invariant")) {
 			prop = "C07"
 		}
 		e.viol(prop, "halt.endblock", "", "EndBlock(%d) panicked: %s [%s]", h, halt.Panic, halt.Stack)
+		e.stop = true // the chain is halted: nothing after this point means anything
 		return
 	}
 	ctx = r0.DeliverCtx()
@@ -582,6 +586,7 @@ func (e *Exec) endAndCommitR0(blk *Block, rec *BlockRec, isUpgradeBlock bool) {
 	_, halt = r0.guard("Commit", func() { cr = r0.App.Commit() })
 	if halt != nil {
 		e.viol("C17", "halt.commit", "", "Commit(%d) panicked: %s [%s]", h, halt.Panic, halt.Stack)
+		e.stop = true
 		return
 	}
 	r0.inBlock = false
@@ -1226,6 +1231,8 @@ func (e *Exec) judgeTx(p *pendingTx, bt *BuiltTx, pred *prediction, accepted boo
 			}
 			if pred.Tampered {
 				prop, class = "C14", "signature.transplant_accepted"
+			} else if e.Prop == "C15" && hasNamedFeePayer(bt.Msgs) {
+				prop = "C15"
 			}
 			e.viol(prop, class, ent, "tx %s was accepted although %s (modes %v)", desc, pred.SigWhy, sigModes(bt))
 			e.resync(r0.DeliverStores())
@@ -1271,6 +1278,10 @@ func (e *Exec) judgeTx(p *pendingTx, bt *BuiltTx, pred *prediction, accepted boo
 		class := "valid_tx_rejected"
 		if first != nil && !(tr.Codespace == "undefined") {
 			prop = authPropOf(first)
+		}
+		if e.Prop == "C15" && hasNamedFeePayer(bt.Msgs) {
+			// who signs first decides who pays: a refused, correctly ordered [fee payer, writer] transaction is C15's business
+			prop = "C15"
 		}
 		if isStatelessRejection(tr) {
 			prop, class = "C16", "stateless.rejected_inside_limits"
@@ -1341,6 +1352,16 @@ func (e *Exec) judgeTx(p *pendingTx, bt *BuiltTx, pred *prediction, accepted boo
 			}
 		}
 	}
+}
+
+func hasNamedFeePayer(msgs []sdk.Msg) bool {
+	all, _ := flattenMsgs(msgs)
+	for _, m := range all {
+		if ar, ok := m.(*aoltypes.MsgAddRecordRequest); ok && ar.FeePayerAddress != "" && ar.FeePayerAddress != ar.WriterAddress {
+			return true
+		}
+	}
+	return false
 }
 
 func onlySeqDiffers(d FlatDiff) bool {
@@ -1526,6 +1547,7 @@ func (e *Exec) clientSideValidate(id int, bt *BuiltTx) {
 			e.viol("C17", "panic.validatebasic", sdk.MsgTypeURL(m), "ValidateBasic of %s panicked: %v", msgJSON(e.Env, m), pan)
 			continue
 		}
+		e.checkFieldCoverage(m)
 		v := StatelessVerdict(m)
 		e.Stats.Inc("stateless." + v.String())
 		if v == Valid && err != nil {
@@ -1572,4 +1594,59 @@ func (e *Exec) hostileQuery(q *HQuery) {
 			return
 		}
 	}
+}
+
+// simulateOnly: a transaction is simulated on one replica and never broadcast. Whatever it did must be gone.
+func (e *Exec) simulateOnly(st *Step) {
+	if st.Tx == nil || e.head() < 1 || st.Replica < 0 || st.Replica >= len(e.R) {
+		return
+	}
+	r := e.R[st.Replica]
+	if r.Dead || !r.Up || r.Applied < 1 || r.inBlock {
+		return
+	}
+	blk := &Block{Height: r.Applied + 1, Time: e.Now}
+	bc := e.buildCtx(blk)
+	var msgs []sdk.Msg
+	ok := true
+	func() {
+		defer func() {
+			if recover() != nil {
+				ok = false
+			}
+		}()
+		for i := range st.Tx.Msgs {
+			msgs = append(msgs, bc.Build(&st.Tx.Msgs[i]))
+		}
+	}()
+	if !ok || len(msgs) == 0 {
+		return
+	}
+	signers := st.Tx.Signers
+	if signers == nil {
+		signers = e.defaultSigners(msgs)
+	}
+	ctx := r.App.NewContext(true, e.Env.Header(e.Blocks[r.Applied-1].B))
+	var seqs, nums []uint64
+	for _, si := range signers {
+		acc := e.Env.Accs[si%len(e.Env.Accs)]
+		var seq, num uint64
+		if a := r.App.AccountKeeper.GetAccount(ctx, acc.Addr); a != nil {
+			seq, num = a.GetSequence(), a.GetAccountNumber()
+		}
+		seqs = append(seqs, seq)
+		nums = append(nums, num)
+	}
+	bt, err := e.Env.BuildTx(TxParams{Msgs: msgs, Signers: signers, Modes: st.Tx.Modes, Seqs: seqs, AccNums: nums, ChainID: ChainID, Fee: e.feeOf(st.Tx), Gas: 30_000_000})
+	if err != nil {
+		return
+	}
+	var serr error
+	_, halt := r.guard("Simulate", func() { _, _, serr = r.App.Simulate(bt.Bytes) })
+	if halt != nil {
+		e.viol("C17", "panic.simulate.escaped", "", "Simulate panicked outside baseapp's recovery: %s [%s]", halt.Panic, halt.Stack)
+		return
+	}
+	e.Stats.Inc("sched.simulate_unbroadcast")
+	e.Trace.Ev("simulate-only tx=%d on replica %d (%s) err=%v", st.ID, r.ID, describeMsgs(msgs), serr != nil)
 }
